@@ -14,7 +14,9 @@ func init() {
 	verifRegister("VerifC16_FormatParseLongInt", VerifC16_FormatParseLongInt)
 	verifRegister("VerifC16_FormatParseHuge", VerifC16_FormatParseHuge)
 	verifRegister("VerifC16_ParseAccumulate", VerifC16_ParseAccumulate)
+	verifRegister("VerifC16_ParseSumOverflow", VerifC16_ParseSumOverflow)
 	verifRegister("VerifC16_ParseRejects", VerifC16_ParseRejects)
+	verifRegister("VerifC16_MetaNames", VerifC16_MetaNames)
 	verifRegister("VerifC16_SchemaUnits", VerifC16_SchemaUnits)
 }
 
@@ -177,6 +179,43 @@ func VerifC16_ParseAccumulate() {
 	verifReach("C16/accumulate/end")
 }
 
+// the running sum: two multi-digit groups whose products fit one by one but whose sum may not (8191PB + 1024TB = 2^63)
+func VerifC16_ParseSumOverflow() {
+	u := UnitBytes
+	mults := []int64{1125899906842624, 1099511627776, 1}
+	names := []string{"PB", "TB", "B"}
+	nds := []int{4, 4, 1}
+	if verifTier() > 0 {
+		nds = []int{5, 7, 19}
+	}
+	s := ""
+	var sum int64
+	fits := true
+	for i := range mults {
+		if i == 2 && !nondetBool("hasB") {
+			continue
+		}
+		digits := nondetDigits(verifNm("g", i), nds[i])
+		var count uint64
+		for j := 0; j < nds[i]; j++ {
+			count = count*10 + uint64(digits[j]-'0')
+		}
+		termFits := count <= uint64(math.MaxInt64/mults[i])
+		term := int64(count) * mults[i]
+		sumFits := sum <= math.MaxInt64-term
+		fits = vAnd(fits, vAnd(termFits, vOr(vNot(termFits), sumFits)))
+		sum += term
+		s += digits + names[i]
+	}
+	got, err := u.ParseInt(s)
+	verifAssert("C16/sum/accepted-iff-fits", vIff(err == nil, fits))
+	if err == nil {
+		verifAssert("C16/sum/value-is-sum", got == sum)
+	}
+	verifObserve("ok", err == nil)
+	verifReach("C16/sum/end")
+}
+
 // every other string is rejected
 func VerifC16_ParseRejects() {
 	u := UnitDurationSeconds
@@ -211,6 +250,63 @@ func VerifC16_ParseRejects() {
 	want := (int64(d[0]-'0')*10+int64(d[1]-'0'))*60 + int64(e[0]-'0')
 	verifAssert("C16/rejects/wellformed-neighbour-accepted", err2 == nil && v == want)
 	verifReach("C16/rejects/end")
+}
+
+// unit names containing regexp metacharacters, in each of the eight name positions: the declared names are accepted
+// literally and with the right value, strings that only match when a metacharacter is live are rejected
+func VerifC16_MetaNames() {
+	u := verifUnitSet(6) // base "u." "u.s" "unit+" "unit+s"; x10 "k*" "k*s" "kilo(" "kilo(s"
+	d := nondetDigits("d", 2)
+	e := nondetDigits("e", 1)
+	dv := int64(d[0]-'0')*10 + int64(d[1]-'0')
+	ev := int64(e[0] - '0')
+	k := nondetChoice("shape", 14)
+	var s string
+	accept := true
+	want := int64(0)
+	switch k {
+	case 0:
+		s, want = d+"k*", dv*10
+	case 1:
+		s, want = d+"k*s", dv*10
+	case 2:
+		s, want = d+"kilo(", dv*10
+	case 3:
+		s, want = d+" kilo(s "+e+"unit+s", dv*10+ev
+	case 4:
+		s, want = d+"u.", dv
+	case 5:
+		s, want = d+"u.s", dv
+	case 6:
+		s, want = d+"k*"+e+"unit+", dv*10+ev
+	case 7:
+		s, accept = d+"kks", false // matches only if * is live
+	case 8:
+		s, accept = d+"s", false
+	case 9:
+		s, accept = d+"uXs", false // matches only if . is live
+	case 10:
+		s, accept = d+"ux", false
+	case 11:
+		s, accept = d+"unitt", false // + live
+	case 12:
+		s, accept = d+"kilo", false
+	case 13:
+		s, accept = d+"k", false
+	}
+	got, err := u.ParseInt(s)
+	verifAssert("C16/meta/accepted-iff-declared-names", (err == nil) == accept)
+	if err == nil && accept {
+		verifAssert("C16/meta/value", got == want)
+	}
+	// and formatting such a definition parses back
+	data := nondetInt64("data")
+	verifAssume(vAnd(data >= 0, data < 256))
+	back, err2 := u.ParseInt(u.FormatShortInt(data))
+	verifAssert("C16/meta/short-roundtrip", err2 == nil && back == data)
+	back2, err3 := u.ParseInt(u.FormatLongInt(data))
+	verifAssert("C16/meta/long-roundtrip", err3 == nil && back2 == data)
+	verifReach("C16/meta/end")
 }
 
 // an integer schema with units: unit strings and plain numbers both denote, constraints apply to the parsed value
